@@ -300,6 +300,20 @@ def _walk_no_defs(node):
             stack.append(c)
 
 
+# Private functions that rules name as anchors (call targets of must-call / ordering rules, or functions looked up by name) and that the clean tree keeps as calls: they are
+# never written out into their callers, whatever a later change does to their size or to the number of their call sites (the decision must not depend on such counts).
+KEEP_AS_CALLS = frozenset('''
+_add_error_object _add_error_to_fit_generic _add_property_to_nexus _bin_evaluation_antiderivative _bin_evaluation_numerical _bin_evaluation_rectangle _bin_evaluation_simpson
+_bin_evaluation_trapezoid _calc_fun_with_constraints _calculate_asymmetric_parameter_errors _calculate_cov_mat _calculate_total_error _convert_yaml_doc_to_object _fcn_wrapper
+_fill_in_zeroes_for_fixed _fill_unprocessed _find_axis_raise _find_cost_cut _fit_wrapper_generic _func_wrapper _func_wrapper_unpack_args _get_base_class _get_cost_value
+_get_error_by_name_raise _get_error_reference _get_fit_info _get_iminuit _get_model_function_parameter_formatters _get_node_names_to_freeze _get_object_type_name
+_get_preface_comment _get_profile_bound _get_required_keywords _get_total_error _init_cost_function _init_nexus _init_shared_error_nodes _initialize_fitter _invalidate_cache
+_iterative_fits_needed _load_state _make_representation _min_x_error _minimize _on_error_change _post_fit_iteration _pre_fit_iteration _recalculate _register_class
+_remove_zeroes_for_fixed _report_fit_results _save_state _second_fit_needed _set_data_as_model_ref _set_new_parametric_model _update_parameter_formatters _update_singular_fits
+_clear_total_error_cache _on_data_change _set_new_data _mark_errors_for_update _get_file_format
+'''.split())
+
+
 class Canon:
     def __init__(self, p):
         self.p = p
@@ -343,7 +357,7 @@ class Canon:
             name = fn.id
         else:
             return None
-        if not name.startswith("_") or name.startswith("__") or not (1 <= self._refs.get(name, 0) <= 6):
+        if not name.startswith("_") or name.startswith("__") or not (1 <= self._refs.get(name, 0) <= 6) or name in KEEP_AS_CALLS:
             return None
         ds = self._defs.get(name, [])
         if len(ds) != 1:
@@ -476,7 +490,7 @@ class Canon:
             h = self.helper(f, call) if call is not None else None
             if h is None:
                 st = self._inline_exprs(f, st, depth)
-                hoisted = self._hoist_arg(f, st) if mode in ("expr", "assign", "return") else None
+                hoisted = self._hoist_arg(f, st) if mode in ("expr", "assign", "return") else self._comp_to_loop(f, st)
                 if hoisted is not None:
                     out.extend(self._inline_block(f, hoisted, depth))
                 else:
@@ -518,6 +532,39 @@ class Canon:
             if isinstance(a, ast.Starred) or (i is None and holder.arg is None) or not _is_pure(a):
                 return None
         return None
+
+    def _comp_to_loop(self, f, st):
+        """`x = [self._helper(v) for v in it]` / `x += [...]`  ->  `x = []` / nothing, then `for v in it: x.append(self._helper(v))` when the helper is one that is written
+        out as statements (the loop body then is the helper's body, as if it had never been extracted)"""
+        if isinstance(st, ast.Assign) and len(st.targets) == 1 and isinstance(st.targets[0], ast.Name):
+            name, fresh = st.targets[0].id, True
+        elif isinstance(st, ast.AugAssign) and isinstance(st.op, ast.Add) and isinstance(st.target, ast.Name):
+            name, fresh = st.target.id, False
+        else:
+            return None
+        comp = st.value
+        if not (isinstance(comp, ast.ListComp) and len(comp.generators) == 1 and not comp.generators[0].is_async and isinstance(comp.elt, ast.Call) and self.helper(f, comp.elt) is not None):
+            return None
+        g = comp.generators[0]
+        bound = {x.id for x in ast.walk(g.target) if isinstance(x, ast.Name)}
+        n_fn = sum(1 for x in ast.walk(f.node) if isinstance(x, ast.Name) and x.id in bound)
+        n_comp = sum(1 for x in ast.walk(comp) if isinstance(x, ast.Name) and x.id in bound)
+        if n_fn > n_comp or any(isinstance(x, ast.Name) and x.id == name for x in ast.walk(comp)):
+            return None
+        app = ast.Expr(value=ast.Call(func=ast.Attribute(value=ast.Name(id=name, ctx=ast.Load()), attr="append", ctx=ast.Load()), args=[comp.elt], keywords=[]))
+        body = app
+        for c in reversed(g.ifs):
+            body = ast.If(test=c, body=[body], orelse=[])
+        loop = ast.For(target=g.target, iter=g.iter, body=[body], orelse=[], lineno=st.lineno)
+        for t in ast.walk(loop.target):
+            if isinstance(t, ast.Name):
+                t.ctx = ast.Store()
+        out = [ast.Assign(targets=[ast.Name(id=name, ctx=ast.Store())], value=ast.List(elts=[], ctx=ast.Load()), lineno=st.lineno)] if fresh else []
+        out.append(loop)
+        for o in out:
+            ast.copy_location(o, st)
+            ast.fix_missing_locations(o)
+        return out
 
     def _inline_nested(self, f, st, depth):
         """recurse into compound statements"""
@@ -1255,6 +1302,26 @@ class _Small(ast.NodeTransformer):
                 continue
             out.append(st)
         return out
+
+    def visit_For(self, n):
+        # `for t in (E for v in I if c): body`  ->  `for v in I: if c: t = E; body`   (a generator is consumed lazily: the same interleaving; a list only when E is pure)
+        n = self.generic_visit(n)
+        it = n.iter
+        if isinstance(it, (ast.GeneratorExp, ast.ListComp)) and len(it.generators) == 1 and not it.generators[0].is_async and isinstance(n.target, ast.Name) and not n.orelse \
+                and (isinstance(it, ast.GeneratorExp) or (_is_pure(it.elt) and all(_is_pure(c) for c in it.generators[0].ifs))) \
+                and not any(isinstance(x, (ast.Break, ast.Continue)) for b in n.body for x in ast.walk(b)):
+            g = it.generators[0]
+            bound = {x.id for x in ast.walk(g.target) if isinstance(x, ast.Name)}
+            if n.target.id not in bound and not any(isinstance(x, ast.Name) and x.id in bound for b in n.body for x in ast.walk(b)):
+                body = [ast.copy_location(ast.Assign(targets=[ast.Name(id=n.target.id, ctx=ast.Store())], value=it.elt, lineno=n.lineno), n)] + list(n.body)
+                for c in reversed(g.ifs):
+                    body = [ast.copy_location(ast.If(test=c, body=body, orelse=[]), n)]
+                tgt = copy.deepcopy(g.target)
+                for t in ast.walk(tgt):
+                    if isinstance(t, (ast.Name, ast.Tuple, ast.List)):
+                        t.ctx = ast.Store()
+                return ast.copy_location(ast.For(target=tgt, iter=g.iter, body=body, orelse=[], lineno=n.lineno), n)
+        return n
 
     def visit_IfExp(self, n):
         self.generic_visit(n)
